@@ -104,7 +104,7 @@ def spread2d(obs, msk=None, nodata=0, frc=None, latlon=False, transform=IDENTITY
                 outside = r1 < 0 or r1 >= nrow or c1 < 0 or c1 >= ncol
                 if outside or (msk is not None and ~msk[r1, c1]):
                     continue
-                d = d0 + np.hypot(dr * dy, dc * dx) * f0
+                d = np.float32(d0 + np.hypot(dr * dy, dc * dx) * f0)  # as stored in dst
                 if src[r1, c1] == -1 or d < dst[r1, c1]:
                     idx0 = src[r, c]
                     src[r1, c1] = idx0
